@@ -57,6 +57,7 @@ impl TraitHandler for HashStructHandler {
         }
 
         let ident = &ast.ident;
+        let hasher = super::hasher_ident(ast);
 
         let bound = type_attribute.bound.into_where_predicates_by_generic_parameters_check_types(
             &ast.generics.params,
@@ -77,7 +78,7 @@ impl TraitHandler for HashStructHandler {
         token_stream.extend(quote! {
             impl #impl_generics ::core::hash::Hash for #ident #ty_generics #where_clause {
                 #[inline]
-                fn hash<H: ::core::hash::Hasher>(&self, state: &mut H) {
+                fn hash<#hasher: ::core::hash::Hasher>(&self, state: &mut #hasher) {
                     #hash_token_stream
                 }
             }
